@@ -190,6 +190,19 @@ def r183(ctx, res):
                 and all(isinstance(v, ast.Constant) and isinstance(v.value, int) for v in n.value.values):
             table = {k.id: v.value for k, v in zip(n.value.keys, n.value.values)}
             table_name = n.targets[0].id
+        elif isinstance(n, ast.Assign) and isinstance(n.value, (ast.Tuple, ast.List)) and len(n.value.elts) >= 3 and all(
+                isinstance(p_, ast.Tuple) and len(p_.elts) == 2 for p_ in n.value.elts):
+            # a sequence of (type, rank) / (rank, type) pairs
+            pairs = {}
+            for p_ in n.value.elts:
+                a_, b_ = p_.elts
+                if isinstance(a_, ast.Name) and isinstance(b_, ast.Constant) and isinstance(b_.value, int):
+                    pairs[a_.id] = b_.value
+                elif isinstance(b_, ast.Name) and isinstance(a_, ast.Constant) and isinstance(a_.value, int):
+                    pairs[b_.id] = a_.value
+            if len(pairs) == len(n.value.elts):
+                table = pairs
+                table_name = n.targets[0].id if isinstance(n.targets[0], ast.Name) else "?"
     # the fall-back rank: a pair (<const>, type(item)) in unify_types or in a function of its module that it calls
     bodies = [fi]
     for c in walk_local(fi.node):
